@@ -219,7 +219,7 @@ def check_overload(ctx, m, cfg):
     spec = run.spec(A, B); out = info['out']; alg = run.alg; n = run.n; nq = 0
     def cong(x, y): return (alg.toz3(x) - alg.toz3(y)) % P == 0
     def ask(neg, what, tmo=60):
-        s = z3.Solver(); s.set('timeout', tmo * 1000); s.add(neg); r = s.check(); smt.STATS['queries'] += 1
+        s = z3.Solver(); s.set('timeout', tmo * 1000); s.add(neg); r = smt.check(s)
         return r, (s.model() if r == z3.sat else None)
     # -- inputs must not be written, and every read must hit a designated position
     for g in ('a', 'b'):
